@@ -252,6 +252,8 @@ fn run_vector(ctx: &Ctx, i: usize, vec: &Value, docs_model: u64) -> Value {
     let use_any = i % 3 == 2; // every third schedule is driven through the real `any` binary
     let mut any_rot = i;
     let mut before_meta = String::from("Absent");
+    // how "metadata missing" is realised: named by the schedule, otherwise by its number
+    let real = vec.get("real").and_then(|r| r.as_u64()).map(|r| r as usize).unwrap_or(i);
     for (k, item) in hist.iter().enumerate() {
         let kind = item["k"].as_str().unwrap();
         let what = item["what"].as_str().unwrap();
@@ -281,7 +283,7 @@ fn run_vector(ctx: &Ctx, i: usize, vec: &Value, docs_model: u64) -> Value {
                     "meta_Absent" => {
                         // "metadata missing" is realised in several ways: deleted, or moved aside (a stray copy next to it
                         // must not be mistaken for the metadata)
-                        match i % 3 {
+                        match real % 3 {
                             0 => {
                                 let _ = std::fs::remove_file(&meta_path);
                             }
